@@ -147,25 +147,46 @@ WalletByName(v) == Wallets[CHOOSE i \in 1..Len(Wallets) : Wallets[i].v = v]
 WalletByHash(hx) == LET ix == {i \in 1..Len(Wallets) : Wallets[i].h = hx} IN
                     IF ix = {} THEN [v |-> "unknown", cls |-> "unknown", off |-> 0, full |-> 0] ELSE Wallets[CHOOSE i \in ix : TRUE]
 
+\* A bag may deviate from boc.tlb in places a reader does not need: the two reserved flag bits, has_cache_bits, the
+\* `absent` counter, the contents of the index, and the level-mask bits of the cell descriptors (which the children
+\* determine).  Whether a verifier refuses such a bag is a matter of its bag parser (C07), not of C19: the tolerant
+\* reading below is what the bag can only mean, a proof carrying such a bag may be accepted for the key of that reading
+\* or rejected ("free"), and a bag without even a tolerant reading is garbage.
+NormHeader(B) ==
+  IF Magic(B) # "generic" \/ Len(B) < 6 THEN B
+  ELSE LET fl == B[5]  sz == fl % 8  a0 == 7 + 2 * sz IN
+       IF (fl \div 64) % 2 = 1 \/ sz < 1 \/ sz > 4 \/ Len(B) < 6 + 3 * sz THEN B        \* (a crc protects the header)
+       ELSE [i \in 1..Len(B) |-> IF i = 5 THEN fl - ((fl \div 8) % 8) * 8 ELSE IF i >= a0 /\ i < a0 + sz THEN 0 ELSE B[i]]
+BagReading(B) ==
+  LET Ps == Parse(B)
+      exact == Ps.ok /\ Ps.T = WithMasks(Ps.T)
+      Pt == IF exact THEN Ps ELSE ParseLenient(NormHeader(B))
+      T  == IF Pt.ok THEN WithMasks(Pt.T) ELSE <<>>
+  IN [ok |-> Pt.ok /\ Len(Pt.roots) = 1 /\ \A i \in 1..Len(T) : HashableCell(T[i]),
+      exact |-> exact, T |-> T, root |-> IF Pt.ok /\ Len(Pt.roots) = 1 THEN Pt.roots[1] ELSE 0]
+
 \* What a state-init text (base64) says: every fact the decision needs, each one FALSE when a prerequisite is.
 StateInitFacts(text, addr) ==
   LET given == Len(text) > 0
       b64   == given /\ B64Valid(text)
-      P     == IF b64 THEN Parse(B64Decode(text)) ELSE [ok |-> FALSE]
-      boc   == P.ok /\ Len(P.roots) = 1 /\ \A i \in 1..Len(P.T) : HashableCell(P.T[i])
-      I     == IF boc THEN InfoTable(P.T) ELSE <<>>
-      S     == IF boc THEN StateInitOf(P.T, P.roots[1]) ELSE [ok |-> FALSE]
+      R     == IF b64 THEN BagReading(B64Decode(text)) ELSE [ok |-> FALSE, exact |-> FALSE]
+      boc   == R.ok
+      I     == IF boc THEN InfoTable(R.T) ELSE <<>>
+      S     == IF boc THEN StateInitOf(R.T, R.root) ELSE [ok |-> FALSE]
       lay   == S.ok
       W     == IF lay /\ S.hasCode THEN WalletByHash(BytesToHex(ReprHash(I[S.code]))) ELSE WalletByHash("")
-      D     == IF lay /\ S.hasData THEN P.T[S.data].b ELSE <<>>
+      D     == IF lay /\ S.hasData THEN R.T[S.data].b ELSE <<>>
       keyOK == lay /\ S.hasCode /\ S.hasData /\ W.cls # "unknown" /\ Len(D) >= W.off + 256
-  IN [given |-> given, b64 |-> b64, canon |-> b64 /\ B64Canonical(text), boc |-> boc, layout |-> lay,
-      hash |-> boc /\ ReprHash(I[P.roots[1]]) = addr,
+  IN [given |-> given, b64 |-> b64, canon |-> b64 /\ B64Canonical(text) /\ (boc => R.exact), boc |-> boc, layout |-> lay,
+      hash |-> boc /\ ReprHash(I[R.root]) = addr,
       code |-> lay /\ S.hasCode, data |-> lay /\ S.hasData, wallet |-> W.cls, version |-> W.v,
       keyOK |-> keyOK, key |-> IF keyOK THEN BitsToBytes(SubSeq(D, W.off + 1, W.off + 256)) ELSE <<>>,
       full |-> keyOK /\ Len(D) >= W.full]
 
 \* ============================================================ the decision table
+\* Acc(k) / Free(k): k is the key that controls the address -- the one the account reports, or the one at the known
+\* position of the data of the state-init that hashes to the address -- and the signature is valid for exactly that key.
+\* No other key may come back with ok = TRUE, in particular not a degenerate one for which anybody can produce signatures.
 Acc(k)  == [v |-> "accept", key |-> k]
 Rej     == [v |-> "reject", key |-> ""]
 Free(k) == [v |-> "free",   key |-> k]       \* the statement does not decide: accept with key k, or reject with an error
@@ -212,16 +233,18 @@ Facts(e) ==
       msg == IF a.ok /\ tsOK THEN SignedMessage(a.wc, a.addr, e.domain, e.ts, e.payload) ELSE <<>>
       ch  == IF a.ok THEN ChainLookup(e.chain, a) ELSE [has |-> FALSE, key |-> <<>>]
       si  == IF a.ok THEN StateInitFacts(e.state_init, a.addr) ELSE StateInitFacts(<<>>, <<>>)
+      vCh == ch.has /\ tsOK /\ SigValid(ch.key, msg, sig)
+      vSi == si.keyOK /\ tsOK /\ (IF ch.has /\ ch.key = si.key THEN vCh ELSE SigValid(si.key, msg, sig))
   IN [plWf |-> pl.wf, plMac |-> PayloadMacOK(e.secret, pl),
       plFresh |-> IF pl.wf THEN Fresh(now, BEInt(pl.t), e.lp) ELSE "no",
       addrWf |-> a.ok, sigB64 |-> sigB64, sigCanon |-> sigB64 /\ B64Canonical(e.sig),
       prFresh |-> IF tsNeg \/ ~tsOK THEN "no" ELSE Fresh(now, ts, e.lpr),
       domOK |-> e.domain = e.want_domain,
       chain |-> IF ch.has THEN "key" ELSE "none", chainKey |-> BytesToHex(ch.key),
-      sigChain |-> ch.has /\ tsOK /\ SigValid(ch.key, msg, sig),
+      sigChain |-> vCh,
       siGiven |-> si.given, siB64 |-> si.b64, siCanon |-> si.canon, siBoc |-> si.boc, siLayout |-> si.layout, siHash |-> si.hash,
       siCode |-> si.code, siData |-> si.data, siWallet |-> si.wallet, siVersion |-> si.version, siKeyOK |-> si.keyOK, siFull |-> si.full,
-      siKey |-> BytesToHex(si.key), sigSi |-> si.keyOK /\ tsOK /\ SigValid(si.key, msg, sig)]
+      siKey |-> BytesToHex(si.key), sigSi |-> vSi]
 
 \* ------------------------------------------------------------ payload functions on their own
 \* CheckPayload(text) at `now` under (secret, lifetime)
